@@ -21,17 +21,25 @@ KNOWN = {  # key in KNOWN_FINDINGS.jsonl -> (probe file prefix, classes of the s
     "distribution-parameter-hang": ("known-distparam-", ["hang@distribution-parameter"]),
     "derivative-cancellation-extreme-magnitude": ("known-cancel-", ["deriv-mismatch@extreme-magnitude", "hes-mismatch@extreme-magnitude"]),
     "gsl-laguerre-3-special-case": ("known-gsl-laguerre3-", ["deriv-mismatch@gsl-laguerre3", "hes-mismatch@gsl-laguerre3"]),
-    "gsl-overflow-first-call-differs": ("known-gsl-firstcall-", ["nondeterministic@overflowing-argument"]),
+    # no fixed probe: whether libgsl's first call differs varies from process to process, so the class is excluded whenever the finding is listed
+    "gsl-overflow-first-call-differs": (None, ["nondeterministic@overflowing-argument"]),
 }
 
 
+def _env(path, limit="5"):
+    e = dict(GSL_CALL_LIMIT=limit)
+    if os.path.basename(path).startswith("known-gsl-firstcall-"):
+        e["GSL_NO_PROBE"] = "1"        # this finding shows only on the library's first call of the process
+    return common.env_with(e)
+
+
 def replay_file(path, limit="5"):
-    p = subprocess.run([BIN, "replay", path], env=common.env_with(dict(GSL_CALL_LIMIT=limit)), stdout=subprocess.PIPE, stderr=subprocess.PIPE, text=True)
+    p = subprocess.run([BIN, "replay", path], env=_env(path, limit), stdout=subprocess.PIPE, stderr=subprocess.PIPE, text=True)
     return p.returncode, (p.stdout + p.stderr).strip()
 
 
 def classify(path):
-    p = subprocess.run([BIN, "class", path], env=common.env_with(dict(GSL_CALL_LIMIT="5")), stdout=subprocess.PIPE, stderr=subprocess.PIPE, text=True)
+    p = subprocess.run([BIN, "class", path], env=_env(path), stdout=subprocess.PIPE, stderr=subprocess.PIPE, text=True)
     return (p.stdout.strip().split() or [""])[0]
 
 
@@ -51,13 +59,16 @@ def run(ctx):
         base = os.path.basename(f)
         hit = None
         for key, (prefix, classes) in KNOWN.items():
-            if base.startswith(prefix) and key in known and classify(f) in classes:
+            if prefix and base.startswith(prefix) and key in known and classify(f) in classes:
                 hit = key
                 skip.update(classes)        # excluded by construction from the generated stream, so that the search goes on
         if hit:
             res.known(hit, {"probe": base, "result": out[:300]})
         else:
             res.violation("regression input fails: %s: %s" % (base, common.crash_head(out) or out[:400]), None, f)
+    for key, (prefix, classes) in KNOWN.items():
+        if prefix is None and key in known:
+            skip.update(classes)
     n = 2000                        # per process; rapidcheck slows down super-linearly, so many short runs
     jobs = common.NCPU * ctx.pick(1, 5)
     work = os.path.join(common.ROOT, "work", "c16-%d" % os.getpid())
@@ -95,6 +106,9 @@ def run(ctx):
             res.labels["second_derivatives_compared"] += j["judged_second"]
             for k, v in j["classes"].items():
                 res.labels["outcome:" + k] += v
+                for key, (prefix, classes) in KNOWN.items():
+                    if prefix is None and k.startswith("known:") and k[6:] in classes and v:
+                        res.known(key, {"met_in_generated_stream": v})
                 if k == "slow-extreme-args":
                     res.inconclusive += v
             res.labels["functions_registered"] = j["functions_registered"]
